@@ -373,6 +373,12 @@ def run(ctx: Ctx) -> RuleResult:
         # cache_fn is assigned on every path into the try
         # record order writer vs reader
     wwith = [n for n in ast.walk(wif or f.node) if isinstance(n, ast.With) and any(x is wopen for x in ast.walk(n.items[0].context_expr))]
+    # the used-files table: second result of load_grammar(...)
+    used_files_locals = set()
+    for n in f.body_nodes():
+        if isinstance(n, ast.Assign) and isinstance(n.value, ast.Call) and norm(n.value.func) == 'load_grammar' \
+                and isinstance(n.targets[0], ast.Tuple) and len(n.targets[0].elts) == 2 and isinstance(n.targets[0].elts[1], ast.Name):
+            used_files_locals.add(n.targets[0].elts[1].id)
     worder: List[str] = []
     if wwith:
         for st in wwith[0].body:
@@ -381,7 +387,7 @@ def run(ctx: Ctx) -> RuleResult:
                     t = norm(c.func)
                     if t.endswith('.write') and key_var in {x.id for x in ast.walk(c) if isinstance(x, ast.Name)}:
                         worder.append('header')
-                    elif t == 'pickle.dump' and c.args and norm(c.args[0]) == 'used_files':
+                    elif t == 'pickle.dump' and c.args and norm(c.args[0]) in used_files_locals:
                         worder.append('used_files')
                     elif t == 'self.save':
                         worder.append('data')
@@ -498,7 +504,10 @@ def _verify_used(ctx: Ctx, res: RuleResult):
         okc = True
         for c in conts:
             g_ = [a for a in ancestors(c) if isinstance(a, ast.If)]
-            okc = okc and bool(g_) and norm(g_[0].test) == 'text is None'
+            digested = {norm(d.args[0]) for d in digs if d.args}
+            t_ = g_[0].test if g_ else None
+            okc = okc and t_ is not None and isinstance(t_, ast.Compare) and isinstance(t_.ops[0], ast.Is) \
+                and isinstance(t_.comparators[0], ast.Constant) and t_.comparators[0].value is None and norm(t_.left) in digested
         res.ob(site, 'v: a recorded file is skipped only when it cannot be read at all', okc)
         if not okc:
             res.finding(v, v.node, 'verify_used_files skips the comparison of some recorded files', construct='v:skip')
